@@ -61,7 +61,8 @@ def reads_eval(case, f, u):
         outs = []
         for i, n in enumerate(case['reads']):
             if n is None:
-                outs.append(u.read() if (i + len(f)) % 2 else u.read(0))
+                # the three spellings of "no size": read(), read(0) and read(None)
+                outs.append([u.read, lambda: u.read(0), lambda: u.read(None)][(i + len(f)) % 3]())
             else:
                 outs.append(u.read(n))
         rem = ref_payload(f)
@@ -72,6 +73,16 @@ def reads_eval(case, f, u):
             if o != exp and why is None:
                 why = (f'read #{i} ({"no size" if n is None else n}) returned {len(o)} bytes, expected the next '
                        f'{len(exp)} bytes of the payload stream')
+        if why is None and case.get('twice') and case['reads'] and case['reads'][-1] is None:
+            # a SECOND pass: everything has been read (the unblocker holds nothing back), the file is rewound through the
+            # unblocker's attribute proxy, and the same reads are made again — they return the same bytes again
+            try:
+                u.seek(0)
+                again = [u.read() if n is None else u.read(n) for n in case['reads']]
+            except Exception as ex:  # noqa
+                again = 'escape:' + type(ex).__name__
+            if again != outs:
+                why = 'after reading to the end and rewinding (seek(0) through the unblocker), the same reads do not return the same bytes'
         total = sum(n or 0 for n in case['reads'])
         return {'obs': 'ok ' + ','.join(common.sig(o) for o in outs), 'violation': why,
                 'nontrivial': total >= P or None in case['reads'],
@@ -194,6 +205,8 @@ def explore(run, tier):
                  'blkcut:3036:1', 'pc:1014', 'pc:5']:
         for reads in ([None], [None, None], [None, 4], [4, None], [1, None, None], [5000], [0 or None, 1]):
             cases.append({'k': 'reads', 'file': spec, 'reads': reads})
+        for reads in ([None], [4, None], [1012, 1012, None], [3000, None], [5000, None]):
+            cases.append({'k': 'reads', 'file': spec, 'reads': reads, 'twice': True})
     # the list-returning convenience reader over blocked byte strings of one to eight blocks
     for lens in ([5], [1004], [1005], [900, 900], [1000, 1000, 1000], [2500, 17, 3000], [500] * 12, [6000], [1012] * 7,
                  [3, 2020, 3, 1008, 1]):
